@@ -9,7 +9,7 @@ HERE = os.path.dirname(os.path.dirname(os.path.abspath(__file__)))
 slots = int(sys.argv[1]) if len(sys.argv) > 1 else 4
 flt = re.compile(sys.argv[2]) if len(sys.argv) > 2 else None
 jobs = []
-for d in sorted(glob.glob(os.path.join(HERE, 'seeded', '*'))):
+for d in sorted([d for d in glob.glob(os.path.join(HERE, 'seeded', '*')) if os.path.isdir(d)]):
     name = os.path.basename(d)
     if flt and not flt.search(name):
         continue
